@@ -15,10 +15,10 @@ StartDisk(s) == CASE s = 0 -> <<>>
                   [] s = 3 -> Two(NoId, NoId)     \* unidentified file whose trajectories carry a second field set
 \* the field sets every trajectory of the behaviour carries; a "fieldset_mismatch"
 \* addition carries the other flavour: one field set too many (base) or one too few (extras)
-Flavour(s) == IF s = 3 THEN "extras" ELSE "base"
+Flavour(s) == IF s \in {3, 6} THEN "extras" ELSE "base"
 \* families with a forced prologue (see FSpec below): 4 = an in-memory store filled to the capacity of its
 \* cache, 5 = an identified file opened for appending; their file-system start is that of 0 resp. 2
-Base(s) == CASE s = 4 -> 0 [] s = 5 -> 2 [] OTHER -> s
+Base(s) == CASE s = 4 -> 0 [] s = 5 -> 2 [] s = 6 -> 0 [] OTHER -> s
 GInit ==
   /\ start \in Starts
   /\ hist = <<>>
@@ -57,10 +57,10 @@ Cand(k) ==
     [] k = "len" -> IF Open THEN {Op("len", 0, 0)} ELSE {}
     [] k = "iter" -> IF Open THEN {Op("iter", 0, 0)} ELSE {}
     [] k = "getflight" -> {Op("getflight", i, 0) : i \in {j \in Ids : FileBacked}}
-    [] k = "addbad" -> {Op("addbad", r, 0) : r \in {q \in 1..5 : Writable
+    [] k = "addbad" -> {Op("addbad", r, 0) : r \in {q \in 1..6 : Writable
                           /\ (q \in {2, 4} => added # <<>>) /\ (q = 3 => indexable # "undecided")}}
     [] k = "addro" -> IF mode = "read" THEN {Op("addro", 0, 0)} ELSE {}
-KindName(q) == CASE q = 1 -> "missing_required" [] q = 2 -> "fieldset_mismatch" [] q = 3 -> "id_inconsistent" [] q = 4 -> "fieldset_redefined" [] q = 5 -> "missing_required_other"
+KindName(q) == CASE q = 1 -> "missing_required" [] q = 2 -> "fieldset_mismatch" [] q = 3 -> "id_inconsistent" [] q = 4 -> "fieldset_redefined" [] q = 5 -> "missing_required_other" [] q = 6 -> "missing_required_foreign"
 Do(d) ==
   CASE d.k = "add" -> Add(d.a, d.b)
     [] d.k = "get" -> Get(d.a)
@@ -86,20 +86,24 @@ SNext == SimNext /\ hist' = Append(hist, Rec) /\ UNCHANGED start
 SSpec == GInit /\ [][SNext]_gvars
 
 \* families: a fixed prologue, then every continuation of D calls (family 5: over the lookup alphabet
-\* look up an identifier / add with an identifier / sync only; family 4: add / save / len / iterate / get)
+\* look up an identifier / add with an identifier / sync only; family 4: add / save / len / iterate / get;
+\* family 6: every kind of rejected addition / add / len on a newly created file)
 Prologue(s) == CASE s = 4 -> <<Op("createmem", 0, 0), Op("add", 1, NoId), Op("add", 2, NoId)>>
                  [] s = 5 -> <<Op("opena", 0, 0)>>
+                 [] s = 6 -> <<Op("create", 0, 0)>>       \* a new file whose trajectories will carry a second field set
                  [] OTHER -> <<>>
 LookupCand == Cand("getflight") \cup {d \in Cand("add") : d.a = 1} \cup Cand("sync")
 MemCand == Cand("add") \cup Cand("save") \cup Cand("len") \cup Cand("iter") \cup Cand("get")
+RejCand == Cand("addbad") \cup {d \in Cand("add") : d.a = 1} \cup Cand("len")
 FamNext == IF Len(hist) < Len(Prologue(start)) THEN Do(Prologue(start)[Len(hist) + 1])
            ELSE IF start = 5 THEN \E d \in LookupCand : Do(d)
            ELSE IF start = 4 THEN \E d \in MemCand : Do(d)
+           ELSE IF start = 6 THEN \E d \in RejCand : Do(d)
            ELSE Next
 FNext == FamNext /\ hist' = Append(hist, Rec) /\ UNCHANGED start
 FSpec == GInit /\ [][FNext]_gvars
 FEmit == IF Len(hist) < Len(Prologue(start)) + D THEN TRUE
-         ELSE PrintT("@@" \o ToJson([h |-> hist, start |-> Base(start), flavour |-> Flavour(Base(start)), added |-> added, disk |-> disk,
+         ELSE PrintT("@@" \o ToJson([h |-> hist, start |-> Base(start), flavour |-> Flavour(start), added |-> added, disk |-> disk,
                                       open |-> (mode # "closed"), exists |-> exists])) /\ FALSE
 
 Out == [h |-> hist, start |-> start, flavour |-> Flavour(start), added |-> added, disk |-> disk, open |-> (mode # "closed"), exists |-> exists]
